@@ -14,6 +14,18 @@ def Clean (b : UInt8) : Prop := 32 ≤ b.toNat ∧ b.toNat ≠ 127
 
 instance (b : UInt8) : Decidable (Clean b) := by unfold Clean; infer_instance
 
+/-- decidable equality on `Except` (for the concrete witnesses below) -/
+instance instDecEqExcept {ε α : Type} [DecidableEq ε] [DecidableEq α] : DecidableEq (Except ε α)
+  | .ok a, .ok b =>
+    if h : a = b then isTrue (by rw [h]) else isFalse (by intro h'; cases h'; exact h rfl)
+  | .error a, .error b =>
+    if h : a = b then isTrue (by rw [h]) else isFalse (by intro h'; cases h'; exact h rfl)
+  | .ok _, .error _ => isFalse (by intro h; cases h)
+  | .error _, .ok _ => isFalse (by intro h; cases h)
+
+theorem u8_toNat_ofNat {n : Nat} (h : n < 256) : (UInt8.ofNat n).toNat = n :=
+  UInt8.toNat_ofNat_of_lt' (by simpa [UInt8.size] using h)
+
 /-! ### the delete table (regenerated from the live module) -/
 
 /-- every control octet (0..31, 127) is in the table `encode_header_item` deletes -/
@@ -53,5 +65,589 @@ theorem C12_headermap_clean (s : Text) (out : Bytes) (h : encodeHeaderItem s = .
 /-- the same for `bytes` items -/
 theorem C12_headermap_bytes_clean (bs : Bytes) : ∀ b ∈ encodeHeaderItemBytes bs, Clean b :=
   deleteCtl_clean bs
+
+/-- one `(name, value)` of `HeaderMap.output()` is clean on both sides -/
+theorem outputItem_clean (k v : Text) (o : Bytes × Bytes) (h : outputItem k v = .ok o) :
+    (∀ b ∈ o.1, Clean b) ∧ (∀ b ∈ o.2, Clean b) := by
+  unfold outputItem at h
+  cases hk : encodeHeaderItem k with
+  | error e => rw [hk] at h; cases h
+  | ok k' =>
+    cases hv : encodeHeaderItem v with
+    | error e => rw [hk, hv] at h; cases h
+    | ok v' =>
+      rw [hk, hv] at h
+      have : o = (k', v') := by cases h; rfl
+      subst this
+      exact ⟨C12_headermap_clean k k' hk, C12_headermap_clean v v' hv⟩
+
+theorem mapM_ok_forall {α β : Type} (f : α → Except Err β) (P : β → Prop)
+    (hf : ∀ a b, f a = .ok b → P b) :
+    ∀ (l : List α) (out : List β), l.mapM f = .ok out → (∀ b ∈ out, P b) ∧ out.length = l.length := by
+  intro l
+  induction l with
+  | nil => intro out h; simp [List.mapM_nil, pure, Except.pure] at h; subst h; simp
+  | cons a rest ih =>
+    intro out h
+    rw [List.mapM_cons] at h
+    cases ha : f a with
+    | error e => rw [ha] at h; cases h
+    | ok b =>
+      cases hr : rest.mapM f with
+      | error e => rw [ha, hr] at h; cases h
+      | ok bs =>
+        rw [ha, hr] at h
+        have : out = b :: bs := by cases h; rfl
+        subst this
+        have := ih bs hr
+        refine ⟨?_, by simp [this.2]⟩
+        intro x hx
+        cases hx with
+        | head => exact hf a _ ha
+        | tail _ hx => exact this.1 x hx
+
+/-- **C12_output_clean**: every header tuple `HeaderMap.output()` emits is clean, and exactly one
+    tuple is emitted per stored item. -/
+theorem C12_output_clean (items : List (Text × Text)) (out : List (Bytes × Bytes))
+    (h : output items = .ok out) :
+    (∀ o ∈ out, (∀ b ∈ o.1, Clean b) ∧ (∀ b ∈ o.2, Clean b)) ∧ out.length = items.length :=
+  mapM_ok_forall (fun kv : Text × Text => outputItem kv.1 kv.2)
+    (fun o => (∀ b ∈ o.1, Clean b) ∧ (∀ b ∈ o.2, Clean b))
+    (fun kv o ho => outputItem_clean kv.1 kv.2 o ho) items out (by unfold output at h; exact h)
+
+/-! ### base64 and the RFC 2047 round trip -/
+
+theorem b64val_b64chr : ∀ n, n < 64 → b64val? (b64chr n) = some n := by decide +kernel
+theorem b64chr_ne_pad : ∀ n, n < 64 → b64chr n ≠ 61 := by decide +kernel
+/-- the base64 alphabet has no control characters (and is ASCII) -/
+theorem b64chr_printable : ∀ n, n < 64 → 32 < b64chr n ∧ b64chr n < 127 := by decide +kernel
+
+/-- own base64: decoding what the encoder produced gives the bytes back (3-byte-group induction) -/
+theorem b64decN_b64encN (l : List Nat) (h : ∀ x ∈ l, x < 256) : b64decN (b64encN l) = some l := by
+  fun_induction b64encN l with
+  | case1 => simp [b64decN]
+  | case2 a =>
+    have ha : a < 256 := h a (by simp)
+    simp only [b64decN]
+    rw [b64val_b64chr _ (by omega), b64val_b64chr _ (by omega)]
+    simp
+    omega
+  | case3 a b =>
+    have ha : a < 256 := h a (by simp)
+    have hb : b < 256 := h b (by simp)
+    simp only [b64decN]
+    have := b64chr_ne_pad ((b % 16) * 4) (by omega)
+    rw [b64val_b64chr _ (by omega), b64val_b64chr _ (by omega), b64val_b64chr _ (by omega)]
+    simp [this]
+    omega
+  | case4 a b c rest ih =>
+    have ha : a < 256 := h a (by simp)
+    have hb : b < 256 := h b (by simp)
+    have hc : c < 256 := h c (by simp)
+    have hr := ih (fun x hx => h x (by simp [hx]))
+    simp only [b64decN]
+    have := b64chr_ne_pad (c % 64) (by omega)
+    rw [b64val_b64chr _ (by omega), b64val_b64chr _ (by omega), b64val_b64chr _ (by omega),
+      b64val_b64chr _ (by omega), hr]
+    simp [this]
+    omega
+
+/-- every character the encoder emits is printable ASCII (alphabet or `=`) -/
+theorem b64encN_printable (l : List Nat) (h : ∀ x ∈ l, x < 256) :
+    ∀ y ∈ b64encN l, 32 < y ∧ y < 127 := by
+  fun_induction b64encN l with
+  | case1 => simp
+  | case2 a =>
+    have ha : a < 256 := h a (by simp)
+    intro y hy
+    simp only [List.mem_cons, List.not_mem_nil, or_false] at hy
+    rcases hy with rfl | rfl | rfl | rfl
+    · exact b64chr_printable _ (by omega)
+    · exact b64chr_printable _ (by omega)
+    · omega
+    · omega
+  | case3 a b =>
+    have ha : a < 256 := h a (by simp)
+    have hb : b < 256 := h b (by simp)
+    intro y hy
+    simp only [List.mem_cons, List.not_mem_nil, or_false] at hy
+    rcases hy with rfl | rfl | rfl | rfl
+    · exact b64chr_printable _ (by omega)
+    · exact b64chr_printable _ (by omega)
+    · exact b64chr_printable _ (by omega)
+    · omega
+  | case4 a b c rest ih =>
+    have ha : a < 256 := h a (by simp)
+    have hb : b < 256 := h b (by simp)
+    have hc : c < 256 := h c (by simp)
+    have hr := ih (fun x hx => h x (by simp [hx]))
+    intro y hy
+    simp only [List.mem_cons] at hy
+    rcases hy with rfl | rfl | rfl | rfl | hy
+    · exact b64chr_printable _ (by omega)
+    · exact b64chr_printable _ (by omega)
+    · exact b64chr_printable _ (by omega)
+    · exact b64chr_printable _ (by omega)
+    · exact hr y hy
+
+theorem map_toNat_lt (bs : Bytes) : ∀ x ∈ bs.map UInt8.toNat, x < 256 := by
+  intro x hx
+  simp only [List.mem_map] at hx
+  obtain ⟨b, _, rfl⟩ := hx
+  exact UInt8.toNat_lt b
+
+theorem map_toNat_ofNat (l : List Nat) (h : ∀ x ∈ l, x < 256) :
+    (l.map UInt8.ofNat).map UInt8.toNat = l := by
+  induction l with
+  | nil => rfl
+  | cons a rest ih =>
+    simp only [List.map_cons]
+    rw [ih (fun x hx => h x (by simp [hx])), u8_toNat_ofNat (h a (by simp))]
+
+theorem map_ofNat_toNat (bs : Bytes) : (bs.map UInt8.toNat).map UInt8.ofNat = bs := by
+  induction bs with
+  | nil => rfl
+  | cons a rest ih => simp only [List.map_cons, ih, UInt8.ofNat_toNat]
+
+/-- the byte-level decoder inverts the byte-level encoder, for every byte string -/
+theorem b64dec_b64enc (bs : Bytes) : b64dec (b64enc bs) = some bs := by
+  unfold b64dec b64enc
+  have hlt := map_toNat_lt bs
+  have hp : ∀ y ∈ b64encN (bs.map UInt8.toNat), y < 256 := fun y hy => by
+    have := b64encN_printable _ hlt y hy; omega
+  rw [map_toNat_ofNat _ hp, b64decN_b64encN _ hlt]
+  simp only [Option.map_some]
+  rw [map_ofNat_toNat]
+
+/-- every byte of the base64 text is printable ASCII: the delete step cannot touch it -/
+theorem b64enc_clean (bs : Bytes) : ∀ b ∈ b64enc bs, Clean b := by
+  intro b hb
+  unfold b64enc at hb
+  simp only [List.mem_map] at hb
+  obtain ⟨y, hy, rfl⟩ := hb
+  have := b64encN_printable _ (map_toNat_lt bs) y hy
+  unfold Clean
+  rw [u8_toNat_ofNat (by omega)]
+  omega
+
+theorem deleteCtl_id_of_clean (bs : Bytes) (h : ∀ b ∈ bs, Clean b) : deleteCtl bs = bs := by
+  unfold deleteCtl
+  rw [List.filter_eq_self]
+  intro b hb
+  have hc := h b hb
+  -- a clean byte is not in the table: the table only holds what `translate` deletes; decide it
+  have key : ∀ n, n < 256 → 32 ≤ n → n ≠ 127 → deleteBytes.contains (UInt8.ofNat n) = false := by
+    decide +kernel
+  have := key b.toNat (UInt8.toNat_lt b) hc.1 hc.2
+  rw [UInt8.ofNat_toNat] at this
+  rw [this]; rfl
+
+/-- **C12_rfc2047_roundtrip**: text with a code point above 255 is emitted by
+    `encode_header_item` as exactly one encoded word `=?utf-8?b?` payload `?=` (the delete step
+    leaves it intact), whose payload base64-decodes to bytes that UTF-8-decode (core Lean's
+    verified decoder) to the original text.  Holds for every protocol version (table:
+    `classProtocol11`, `useRfc2047`). -/
+theorem C12_rfc2047_roundtrip (s : Text) (h : isLatin1 s = false) :
+    ∃ payload : Bytes,
+      encodeHeaderItem s = .ok (ewPrefix ++ payload ++ ewSuffix) ∧
+      (∀ b ∈ ewPrefix ++ payload ++ ewSuffix, Clean b) ∧
+      (b64dec payload).bind (fun raw => raw.toByteArray.utf8Decode?) = some s.toArray := by
+  refine ⟨b64enc (utf8 s), ?_, ?_, ?_⟩
+  · have hclean : ∀ b ∈ ewPrefix ++ b64enc (utf8 s) ++ ewSuffix, Clean b := by
+      intro b hb
+      simp only [List.mem_append] at hb
+      rcases hb with (hb | hb) | hb
+      · revert b; decide
+      · exact b64enc_clean _ b hb
+      · revert b; decide
+    have henc : encode s = .ok (ewPrefix ++ b64enc (utf8 s) ++ ewSuffix) := by
+      unfold encode
+      simp [h, classProtocol11, useRfc2047]
+    unfold encodeHeaderItem
+    rw [henc]
+    simp only [Except.map]
+    rw [deleteCtl_id_of_clean _ hclean]
+  · intro b hb
+    simp only [List.mem_append] at hb
+    rcases hb with (hb | hb) | hb
+    · revert b; decide
+    · exact b64enc_clean _ b hb
+    · revert b; decide
+  · rw [b64dec_b64enc]
+    simp only [Option.bind_some, utf8]
+    exact List.utf8Decode?_utf8Encode
+
+/-- non-vacuity: U+8200 is not Latin-1, and the encoded word is the one the docstring of
+    `HeaderMap.encode` quotes (`=?utf-8?b?6IiA?=`) -/
+example : isLatin1 [Char.ofNat 0x8200] = false ∧
+    encodeHeaderItem [Char.ofNat 0x8200] =
+      .ok [61, 63, 117, 116, 102, 45, 56, 63, 98, 63, 54, 73, 105, 65, 63, 61] := by
+  decide
+
+/-! ### status line and cookie lines (`Response.finalize`) -/
+
+theorem digits3_clean (n : Nat) (h : n ≤ 999) : ∀ b ∈ digits3 n, Clean b := by
+  intro b hb
+  simp only [digits3, List.mem_cons, List.not_mem_nil, or_false] at hb
+  unfold Clean
+  rcases hb with rfl | rfl | rfl <;> rw [u8_toNat_ofNat (by omega)] <;> omega
+
+theorem statusLine_clean (code : Nat) (reason : Text) (out : Bytes)
+    (h : statusLine code reason = .ok out) : ∀ b ∈ out, Clean b := by
+  unfold statusLine at h
+  split at h
+  · rename_i hc
+    cases hr : encodeHeaderItem reason with
+    | error e => rw [hr] at h; cases h
+    | ok r =>
+      rw [hr] at h
+      have : out = digits3 code ++ [32] ++ r := by cases h; rfl
+      subst this
+      intro b hb
+      simp only [List.mem_append, List.mem_singleton] at hb
+      rcases hb with (hb | rfl) | hb
+      · exact digits3_clean code (by omega) b hb
+      · decide
+      · exact C12_headermap_clean reason r hr b hb
+  · cases h
+
+theorem cookieLine_clean (m : Text) (o : Bytes × Bytes) (h : cookieLine m = .ok o) :
+    (∀ b ∈ o.1, Clean b) ∧ (∀ b ∈ o.2, Clean b) := by
+  unfold cookieLine at h
+  split at h
+  · cases h
+  · exact outputItem_clean _ _ o h
+
+/-- **C12_status_cookie_clean** (repaired `Response.finalize`): for every status code, every
+    reason phrase and every list of morsel output strings — whatever `http.cookies` produced —
+    the status line and every cookie tuple consist of clean bytes only. -/
+theorem C12_status_cookie_clean (code : Nat) (reason : Text) (morsels : List Text) :
+    (∀ out, statusLine code reason = .ok out → ∀ b ∈ out, Clean b) ∧
+    (∀ ls, cookieLines morsels = .ok ls →
+      ∀ o ∈ ls, (∀ b ∈ o.1, Clean b) ∧ (∀ b ∈ o.2, Clean b)) :=
+  ⟨fun out h => statusLine_clean code reason out h,
+   fun ls h => (mapM_ok_forall cookieLine _ cookieLine_clean morsels ls h).1⟩
+
+/-- **C12_cookie_no_injection** (repaired): exactly one header tuple per morsel — no text inside a
+    morsel can start a header line of its own. -/
+theorem C12_cookie_no_injection (morsels : List Text) (ls : List (Bytes × Bytes))
+    (h : cookieLines morsels = .ok ls) : ls.length = morsels.length :=
+  (mapM_ok_forall cookieLine (fun _ => True) (fun _ _ _ => trivial) morsels ls h).2
+
+/-- non-vacuity: the F12 witness goes through the repaired assembly as ONE clean tuple -/
+example : cookieLines ["Set-Cookie: k=v; Path=/x\r\nX-Evil: 1".toList] =
+    .ok [("Set-Cookie".toList.map fun c => UInt8.ofNat c.toNat,
+          "k=v; Path=/xX-Evil: 1".toList.map fun c => UInt8.ofNat c.toNat)] := by
+  decide +kernel
+
+example : statusLine 200 "OK\r\nX-Evil: 1".toList =
+    .ok ("200 OKX-Evil: 1".toList.map fun c => UInt8.ofNat c.toNat) := by
+  decide +kernel
+
+/-- the full statement for the assembly as it was BEFORE the fix -/
+def C12_status_cookie_clean_old : Prop :=
+  ∀ (code : Nat) (reason : Text) (morsels : List Text),
+    (∀ out, statusLineOld code reason = .ok out → ∀ b ∈ out, Clean b) ∧
+    (∀ ls, cookieLinesOld morsels = .ok ls →
+      (∀ o ∈ ls, (∀ b ∈ o.1, Clean b) ∧ (∀ b ∈ o.2, Clean b)) ∧ ls.length = morsels.length)
+
+/-- **F12**: the pre-fix assembly violates the statement.  Witness: reason phrase `OK\nX` keeps
+    its LF; and the single morsel `Set-Cookie: k=v; Path=/x\r\nX-Evil: 1` comes out as TWO
+    tuples, the second being `("X-Evil", "1")`. -/
+theorem C12_status_cookie_clean_old_false : ¬ C12_status_cookie_clean_old := by
+  intro h
+  have h1 := (h 200 ['O', 'K', '\n', 'X'] []).1 _ (by decide : statusLineOld 200 ['O', 'K', '\n', 'X'] = .ok [50, 48, 48, 32, 79, 75, 10, 88])
+  exact absurd (h1 10 (by decide)) (by decide)
+
+/-- the injected tuple, explicitly -/
+theorem cookieLinesOld_injects :
+    cookieLinesOld ["Set-Cookie: k=v; Path=/x\r\nX-Evil: 1".toList] =
+      .ok [("Set-Cookie".toList.map fun c => UInt8.ofNat c.toNat,
+            "k=v; Path=/x".toList.map fun c => UInt8.ofNat c.toNat),
+           ("X-Evil".toList.map fun c => UInt8.ofNat c.toNat,
+            "1".toList.map fun c => UInt8.ofNat c.toNat)] := by
+  decide +kernel
+
+/-- what DID hold before the fix: a reason phrase without control characters gives a clean
+    status line (Latin-1 branch: bytes are the code points; RFC 2047 branch: base64) -/
+theorem C12_status_old_partial (code : Nat) (reason : Text) (out : Bytes)
+    (hr : ∀ c ∈ reason, 32 ≤ c.toNat ∧ c.toNat ≠ 127)
+    (h : statusLineOld code reason = .ok out) : ∀ b ∈ out, Clean b := by
+  unfold statusLineOld at h
+  split at h
+  · rename_i hc
+    have henc : ∀ v, encode reason = .ok v → ∀ b ∈ v, Clean b := by
+      intro v hv
+      unfold encode at hv
+      split at hv
+      · rename_i hl
+        have : v = latin1 reason := by cases hv; rfl
+        subst this
+        intro b hb
+        simp only [latin1, List.mem_map] at hb
+        obtain ⟨c, hcm, rfl⟩ := hb
+        have hl' : c.toNat ≤ 255 := by
+          simp only [Bool.and_eq_true, isLatin1, List.all_eq_true, decide_eq_true_eq] at hl
+          exact hl.2 c hcm
+        unfold Clean
+        rw [u8_toNat_ofNat (by omega)]
+        exact hr c hcm
+      · split at hv
+        · have : v = ewPrefix ++ b64enc (utf8 reason) ++ ewSuffix := by cases hv; rfl
+          subst this
+          intro b hb
+          simp only [List.mem_append] at hb
+          rcases hb with (hb | hb) | hb
+          · revert b; decide
+          · exact b64enc_clean _ b hb
+          · revert b; decide
+        · cases hv
+    cases he : encode reason with
+    | error e => rw [he] at h; cases h
+    | ok r =>
+      rw [he] at h
+      have : out = digits3 code ++ [32] ++ r := by cases h; rfl
+      subst this
+      intro b hb
+      simp only [List.mem_append, List.mem_singleton] at hb
+      rcases hb with (hb | rfl) | hb
+      · exact digits3_clean code (by omega) b hb
+      · decide
+      · exact henc r he b hb
+  · cases h
+
+/-- non-vacuity of the hypothesis -/
+example : (∀ c ∈ "Not Found".toList, 32 ≤ c.toNat ∧ c.toNat ≠ 127) ∧
+    statusLineOld 404 "Not Found".toList = .ok ("404 Not Found".toList.map fun c => UInt8.ofNat c.toNat) := by
+  decide +kernel
+
+/-! ### `SanitizedHost` -/
+
+/-- the sanitised Host value holds neither CR nor LF (table: `hostDangerous`) -/
+theorem C12_sanitizeHost_clean (s : Text) : ∀ c ∈ sanitizeHost s, c ≠ '\r' ∧ c ≠ '\n' := by
+  intro c hc
+  simp only [sanitizeHost, List.mem_filter] at hc
+  have hnot : hostDangerous.contains c.toNat = false := by simpa using hc.2
+  constructor
+  · rintro rfl; revert hnot; decide
+  · rintro rfl; revert hnot; decide
+
+/-! ### HTML escaping, error page, redirect page -/
+
+def Markup (c : Char) : Prop := c = '<' ∨ c = '>'
+
+theorem htmlEscapeChar_no_markup (x c : Char) (h : c ∈ htmlEscapeChar x) : c ≠ '<' ∧ c ≠ '>' := by
+  unfold htmlEscapeChar at h
+  split at h
+  · revert c; decide
+  · split at h
+    · revert c; decide
+    · split at h
+      · revert c; decide
+      · simp only [List.mem_singleton] at h
+        subst h
+        exact ⟨by assumption, by assumption⟩
+
+/-- `html.escape(s, quote=False)` never outputs `<` or `>` -/
+theorem htmlEscape_no_markup (s : Text) : ∀ c ∈ htmlEscape s, c ≠ '<' ∧ c ≠ '>' := by
+  intro c hc
+  simp only [htmlEscape, List.mem_flatMap] at hc
+  obtain ⟨x, _, hx⟩ := hc
+  exact htmlEscapeChar_no_markup x c hx
+
+theorem htmlUnescapeAux_cons_ne (c : Char) (t : Text) (h : c ≠ '&') :
+    htmlUnescapeAux 0 (c :: t) = c :: htmlUnescapeAux 0 t := by
+  simp [htmlUnescapeAux, h]
+
+/-- reading the three entities back gives the original text: escaping loses nothing and adds
+    nothing (every `&` in the escaped text starts one of the three entities) -/
+theorem htmlUnescape_htmlEscape (s : Text) : htmlUnescape (htmlEscape s) = s := by
+  unfold htmlUnescape
+  induction s with
+  | nil => rfl
+  | cons c t ih =>
+    have hcons : htmlEscape (c :: t) = htmlEscapeChar c ++ htmlEscape t := by
+      simp [htmlEscape]
+    rw [hcons]
+    unfold htmlEscapeChar
+    split
+    · rename_i h; subst h
+      simp [htmlUnescapeAux, ih]
+    · split
+      · rename_i h; subst h
+        simp [htmlUnescapeAux, ih]
+      · split
+        · rename_i h; subst h
+          simp [htmlUnescapeAux, ih]
+        · rename_i h _ _
+          simp only [List.singleton_append]
+          rw [htmlUnescapeAux_cons_ne c _ h, ih]
+
+/-- generic renderer fact: if every literal character satisfies `P` or is marked as literal…
+    here: every character that is NOT from a literal comes out of `esc` -/
+theorem renderMarked_field_chars (esc : Text → Text) (P : Char → Prop)
+    (hesc : ∀ v, ∀ c ∈ esc v, P c) (kw : List (Text × Text)) :
+    ∀ (tpl : List Piece) (out : List (Char × Bool)), renderMarked esc kw tpl = some out →
+      ∀ p ∈ out, p.2 = false → P p.1 := by
+  intro tpl
+  induction tpl with
+  | nil => intro out h; simp [renderMarked] at h; subst h; simp
+  | cons pc rest ih =>
+    intro out h
+    cases pc with
+    | lit s =>
+      simp only [renderMarked, Option.map_eq_some_iff] at h
+      obtain ⟨r, hr, rfl⟩ := h
+      intro p hp hf
+      simp only [List.mem_append, List.mem_map] at hp
+      rcases hp with ⟨c, _, rfl⟩ | hp
+      · cases hf
+      · exact ih r hr p hp hf
+    | field n =>
+      simp only [renderMarked] at h
+      cases hl : lookup kw n with
+      | none => rw [hl] at h; cases h
+      | some v =>
+        cases hr : renderMarked esc kw rest with
+        | none => rw [hl, hr] at h; cases h
+        | some r =>
+          rw [hl, hr] at h
+          have : out = (esc v).map (·, false) ++ r := by cases h; rfl
+          subst this
+          intro p hp hf
+          simp only [List.mem_append, List.mem_map] at hp
+          rcases hp with ⟨c, hc, rfl⟩ | hp
+          · exact hesc v c hc
+          · exact ih r hr p hp hf
+
+/-- **C12_error_page_escaped**: for EVERY `%`-template and EVERY keyword values, in the page
+    `get_error_page` renders every `<` and every `>` comes from a template literal — no field
+    value (status with a client-chosen reason phrase, message with the request path, traceback,
+    version) can open or close a tag — and the rendered text is the marked text without marks. -/
+theorem C12_error_page_escaped (kw : List (Text × Text)) (tpl : List Piece)
+    (out : List (Char × Bool)) (h : renderMarked htmlEscape kw tpl = some out) :
+    (∀ p ∈ out, (p.1 = '<' ∨ p.1 = '>') → p.2 = true) ∧
+    render htmlEscape kw tpl = some (out.map Prod.fst) := by
+  refine ⟨?_, by simp [render, h]⟩
+  intro p hp hm
+  cases hb : p.2 with
+  | true => rfl
+  | false =>
+    have := renderMarked_field_chars htmlEscape (fun c => c ≠ '<' ∧ c ≠ '>')
+      (fun v c hc => htmlEscape_no_markup v c hc) kw tpl out h p hp hb
+    rcases hm with hm | hm
+    · exact absurd hm this.1
+    · exact absurd hm this.2
+
+def fieldsOf : List Piece → List Text
+  | [] => []
+  | .lit _ :: rest => fieldsOf rest
+  | .field n :: rest => n :: fieldsOf rest
+
+theorem renderMarked_isSome (esc : Text → Text) (kw : List (Text × Text)) :
+    ∀ tpl : List Piece, (∀ n ∈ fieldsOf tpl, (lookup kw n).isSome) →
+      (renderMarked esc kw tpl).isSome := by
+  intro tpl
+  induction tpl with
+  | nil => intro _; simp [renderMarked]
+  | cons pc rest ih =>
+    intro h
+    cases pc with
+    | lit s =>
+      simp only [renderMarked, Option.isSome_map]
+      exact ih (fun n hn => h n (by simpa [fieldsOf] using hn))
+    | field n =>
+      have h1 := h n (by simp [fieldsOf])
+      have h2 := ih (fun m hm => h m (by simp [fieldsOf, hm]))
+      simp only [renderMarked]
+      cases hl : lookup kw n with
+      | none => rw [hl] at h1; cases h1
+      | some v =>
+        cases hr : renderMarked esc kw rest with
+        | none => rw [hr] at h2; cases h2
+        | some r => simp
+
+/-- the default template (generated table) only uses the four fields `get_error_page` always
+    supplies: rendering the built-in page cannot fail with `KeyError` -/
+theorem errorPage_isSome (status message traceback version : Text) :
+    (errorPage status message traceback version).isSome := by
+  unfold errorPage render
+  rw [Option.isSome_map]
+  apply renderMarked_isSome
+  have : ∀ n ∈ fieldsOf (toPieces errorTemplate),
+      n = kStatus ∨ n = kMessage ∨ n = kTraceback ∨ n = kVersion := by decide +kernel
+  intro n hn
+  rcases this n hn with rfl | rfl | rfl | rfl <;> simp [lookup, kStatus, kMessage, kTraceback, kVersion]
+
+theorem xmlAttrEscapeChar_no_markup (x c : Char) (h : c ∈ xmlAttrEscapeChar x) : c ≠ '<' ∧ c ≠ '>' := by
+  unfold xmlAttrEscapeChar at h
+  split at h
+  · revert c; decide
+  split at h
+  · revert c; decide
+  split at h
+  · revert c; decide
+  split at h
+  · revert c; decide
+  split at h
+  · revert c; decide
+  split at h
+  · revert c; decide
+  simp only [List.mem_singleton] at h
+  subst h
+  exact ⟨by assumption, by assumption⟩
+
+/-- **quoteattr_delimited**: `saxutils.quoteattr(s)` is `q body q` with `q` a quote character that
+    does not occur in `body`, and `body` holds neither `<` nor `>`: the attribute value cannot end
+    early and cannot open a tag, for every `s`. -/
+theorem quoteattr_delimited (s : Text) :
+    ∃ (q : Char) (body : Text), quoteattr s = q :: body ++ [q] ∧ (q = '"' ∨ q = '\'') ∧
+      ∀ c ∈ body, c ≠ q ∧ c ≠ '<' ∧ c ≠ '>' := by
+  have hd : ∀ c ∈ s.flatMap xmlAttrEscapeChar, c ≠ '<' ∧ c ≠ '>' := by
+    intro c hc
+    simp only [List.mem_flatMap] at hc
+    obtain ⟨x, _, hx⟩ := hc
+    exact xmlAttrEscapeChar_no_markup x c hx
+  unfold quoteattr
+  simp only
+  generalize s.flatMap xmlAttrEscapeChar = d at hd ⊢
+  split
+  · split
+    · refine ⟨'"', _, rfl, Or.inl rfl, ?_⟩
+      intro c hc
+      simp only [List.mem_flatMap] at hc
+      obtain ⟨x, hx, hcx⟩ := hc
+      split at hcx
+      · revert c; decide
+      · rename_i hne
+        simp only [List.mem_singleton] at hcx
+        subst hcx
+        exact ⟨hne, hd c hx⟩
+    · rename_i h2
+      refine ⟨'\'', _, rfl, Or.inr rfl, ?_⟩
+      intro c hc
+      refine ⟨?_, hd c hc⟩
+      rintro rfl
+      exact h2 (by simpa using hc)
+  · rename_i h1
+    refine ⟨'"', _, rfl, Or.inl rfl, ?_⟩
+    intro c hc
+    refine ⟨?_, hd c hc⟩
+    rintro rfl
+    exact h1 (by simpa using hc)
+
+/-- **C12_redirect_page_escaped**: each anchor of the redirect page is
+    `msg <a href=` q body q `>` text `</a>.` where the attribute body cannot leave its quotes or
+    open a tag, the link text has no `<`/`>`, and the link text unescapes to the URL. -/
+theorem C12_redirect_page_escaped (msg u : Text) :
+    ∃ (q : Char) (body : Text),
+      redirectAnchor msg u =
+        msg ++ ['<', 'a', ' ', 'h', 'r', 'e', 'f', '='] ++ (q :: body ++ [q]) ++ ['>'] ++ htmlEscape u
+          ++ ['<', '/', 'a', '>', '.'] ∧
+      (q = '"' ∨ q = '\'') ∧ (∀ c ∈ body, c ≠ q ∧ c ≠ '<' ∧ c ≠ '>') ∧
+      (∀ c ∈ htmlEscape u, c ≠ '<' ∧ c ≠ '>') ∧ htmlUnescape (htmlEscape u) = u := by
+  obtain ⟨q, body, hq, hq', hb⟩ := quoteattr_delimited u
+  exact ⟨q, body, by unfold redirectAnchor; rw [hq], hq', hb, htmlEscape_no_markup u,
+    htmlUnescape_htmlEscape u⟩
 
 end CpProofs.C12
